@@ -21,7 +21,7 @@ def h64(*parts):
     return int.from_bytes(m.digest(), 'big')
 
 
-_FD_EVENTS = frozenset(('socket', 'close', 'send', 'recv', 'recv-timeout', 'recv-rst', 'listen', 'connect', 'bind', 'accept'))
+_FD_EVENTS = frozenset(('socket', 'close', 'established', 'send', 'recv', 'recv-timeout', 'recv-rst', 'listen', 'connect', 'bind', 'accept'))
 
 
 class Stats:
